@@ -1,7 +1,10 @@
 (* Props/C10.v — Emitted bytecode is well-formed on every path; the VM checks jumps. *)
 From Coq Require Import ZArith List Bool.
-From Rscel Require Import Base.Prims Model.Value Model.Interp Spec.WfCode Proofs.VM.
+From Rscel Require Import Base.Prims Model.Value Model.Interp Model.Lexer Model.Ast Model.Parser Model.Compile Spec.WfCode Proofs.VM.
+From Rscel Require Import Proofs.Asm Proofs.TreeAlg Proofs.CompileWf.
 Import ListNotations.
+From Coq Require Strings.String.
+Import Coq.Strings.String.StringSyntax.
 Open Scope Z_scope.
 
 (** Every instruction that does not fail has the fixed stack effect
@@ -111,3 +114,45 @@ Example C10_witness :
   wf_code 3 [IPush (VIdent [120]); IPop; IPop] = false /\
   wf_code 3 [IJmp 5; IPush VNull] = false.
 Proof. vm_compute. repeat split. Qed.
+
+(** * Every program the compiler emits is well-formed (for all expressions, not per program)
+
+    The label assembler: a tree of instructions, label jumps, labels and already-resolved chunks
+    that follows the stack-height discipline from an empty stack to exactly one value, whose labels
+    are defined once and after their uses, resolves to code that passes the validator. *)
+Theorem C10_assembler : forall wfn T G,
+  tcheck T (Some 0%nat) (fun _ => None) = Some (Some 1%nat, G) ->
+  tnested wfn T -> tfwd [] T -> NoDup (tdefs T) ->
+  exists code H, resolve (flat T) = Some code /\ validate wfn code H = true.
+Proof. exact resolve_valid. Qed.
+Print Assumptions C10_assembler.
+
+(** Code generation, for EVERY expression, fuel and label counter: when the compiler returns, the code it
+    returns resolves (the duplicate / undefined label panic of the Rust code is unreachable) and is valid:
+    jumps land in the block or at its end, no path pops from an empty stack, paths that meet agree on the
+    height, the block ends with exactly one value.  Every nested block (call argument, macro body, f-string
+    segment) is pushed as the resolved output of such a call, so the same theorem covers it. *)
+Theorem C10_compiled_code_is_valid : forall fuel e n cp n',
+  c_expr fuel e n = COk cp n' ->
+  exists code H, resolve (into_bytecode (cp_node cp)) = Some code /\ validate wf1 code H = true.
+Proof. exact compiled_code_is_valid. Qed.
+Print Assumptions C10_compiled_code_is_valid.
+
+Theorem C10_compile_source_is_valid : forall fuel src p k,
+  compile_source fuel src = COk p k -> exists H, validate wf1 (pr_code p) H = true.
+Proof. exact compile_source_is_valid. Qed.
+Print Assumptions C10_compile_source_is_valid.
+
+Theorem C10_compile_never_label_panic : forall fuel src e t cp n,
+  parse_program fuel src = POk e t -> c_expr fuel e 0%nat = COk cp n ->
+  exists p, compile_source fuel src = COk p n /\ pr_ast p = e.
+Proof. exact compile_source_never_label_panic. Qed.
+Print Assumptions C10_compile_never_label_panic.
+
+(** not vacuous: a program with ||, &&, ?:, match, a call, a list, an index and an f-string compiles *)
+Example C10_compiles_somewhere :
+  match compile_source 60 #"a || b && c ? [1, x][0] : match y { case 1: f(x, 2), case _: f'{x}' }" with
+  | COk p _ => Nat.ltb 20%nat (length (pr_code p))
+  | _ => false
+  end = true.
+Proof. vm_compute. reflexivity. Qed.
